@@ -20,10 +20,10 @@ fn main() {
         index = std::fs::read_to_string(log).map(|s| s.lines().count()).unwrap_or(0);
         let cwd = std::env::current_dir().map(|p| p.as_os_str().as_bytes().to_vec()).unwrap_or_default();
         let line = if std::env::var_os("FU_REC_COMPACT").is_some() {
-            // compact form for huge command lines: argc, total bytes, first and last argument (prefix)
+            // compact form for huge command lines: argc, total bytes, first and last argument (prefix), cwd
             let total: usize = args.iter().map(|a| a.as_bytes().len()).sum();
             let pre = |a: &std::ffi::OsString| hex(&a.as_bytes()[..a.as_bytes().len().min(12)]);
-            format!("C {} {} {} {}\n", args.len(), total, pre(&args[1.min(args.len() - 1)]), pre(&args[args.len() - 1]))
+            format!("C {} {} {} {} {}\n", args.len(), total, pre(&args[1.min(args.len() - 1)]), pre(&args[args.len() - 1]), hex(&cwd))
         } else {
             format!(
                 "{} {}\n",
